@@ -261,6 +261,24 @@ def Block.releaseByHandle (b : Block) (cd : Int) (now : Nat) (h : Handle) (seq :
   let b2 := if ords.isEmpty then b else b.markCooldown now ords false
   ((b2.gc cd now).1, ords.length)
 
+/-- ASCII `strings.ToLower` on a byte list. -/
+def lowerH (h : Handle) : Handle := h.map (fun c => if 65 ≤ c ∧ c ≤ 90 then c + 32 else c)
+
+/-- `WindowsReservedHandle` = "windows-reserved-ipam-handle". -/
+def windowsReservedHandle : Handle :=
+  [119, 105, 110, 100, 111, 119, 115, 45, 114, 101, 115, 101, 114, 118, 101, 100, 45, 105, 112, 97, 109, 45, 104, 97, 110, 100, 108, 101]
+
+/-- `empty()`: every allocation — live OR cooling down — belongs to the Windows reserved handle. It gates the
+deletion of a block (releaseBlockAffinity, releaseIPsFromBlock / releaseByHandle on a non-affine block). -/
+def Block.isEmpty (b : Block) : Bool :=
+  b.allocs.all (fun a =>
+    match a with
+    | none => true
+    | some i =>
+      match b.attrs[i]? with
+      | some att => (match att.handle with | some h => lowerH h == windowsReservedHandle | none => false)
+      | none => true)
+
 /-! ### Histories -/
 
 inductive Op
